@@ -102,6 +102,7 @@ class Interp:
         self.trace = False
         self.max_states = 0
         self.cur_site = (0, '')
+        self.cur_fn = ''
         self.merge_k = 8
 
     # ------------------------------------------------------------------ obligations
@@ -1569,6 +1570,7 @@ class Interp:
             raise AnalysisIncomplete("step budget exceeded")
         bb = body['blocks'][bbi]
         key = body['key']
+        self.cur_fn = body['def']
         states = [st]
         for si, s in enumerate(bb['stmts']):
             kind = s['s']
